@@ -140,6 +140,15 @@ fn mask_by_names(k: K, tok: &str) -> Result<u32, String> {
     Ok(v)
 }
 
+/// Value of an enum / mask operand from its specification-name rendering.
+pub fn value_by_name(k: K, text: &str) -> Result<u32, String> {
+    match decls::kind_class(k) {
+        0 => enum_by_name(k, text),
+        1 => mask_by_names(k, text),
+        _ => Err("not an enum or mask kind".into()),
+    }
+}
+
 pub struct Reader {
     pub types: TypeModel,
     /// result id of OpExtInstImport -> set name
